@@ -181,6 +181,10 @@ Proof.
   - (* RdC *) genK Hstep.
   - (* RdL *) genK Hstep.
   - (* G1 *) genK Hstep.
+  - (* Sn1 *) genK Hstep.
+  - (* Sn2 *) genK Hstep.
+  - (* Sn3 *) genK Hstep.
+  - (* Sn4 *) genK Hstep.
 Qed.
 
 End PerOrder.
@@ -189,7 +193,7 @@ End PerOrder.
 Lemma start_budk k price c : budk k (start price c) = call_budk k price c.
 Proof.
   unfold budk.
-  destruct c as [o|qty taker|u| | | | |]; cbn [start call_budk];
+  destruct c as [o|qty taker|u| | | | | |]; cbn [start call_budk];
     try (cbn [asd ownb ownkey]; rewrite sumk_nil, ?on_zero; reflexivity).
   - destruct (next_iter_asd (mkMloc taker qty (result_new taker qty) [])) as (Ha & _ & _ & _ & Hb & _).
     rewrite Ha, Hb, on_zero. reflexivity.
